@@ -5,7 +5,7 @@
     freely mixed.  [run ops init] is the provider after the program; every theorem quantifies over
     all programs (hence all definition sequences over the name pool in every order, all dependency
     graphs — factories are arbitrary first-order programs — and all request histories). *)
-From Coq Require Import Relations.
+From Coq Require Import Relations Permutation.
 From GC Require Import Common.Base Model.Di Proofs.Di.
 
 (** ** Termination: the fuel [#keys + 1] of a request is never exhausted, cycles included. *)
@@ -78,6 +78,25 @@ Theorem C10_explicit_beats_default : forall ops1 d ops2 n s' t,
   Get (run (ops1 ++ d :: ops2) init) n = (s', GOk t) -> explicit_kind (t_kind t) = true.
 Proof. exact explicit_beats_default. Qed.
 Print Assumptions C10_explicit_beats_default.
+
+(** Registration order in general: two definition sequences that consist of the same calls, all
+    accepted in both orders, yield the same effective definition set, hence (after any histories
+    [reqs], [reqs']) the same outcome class and the same producer for every name.  (Which calls
+    are ACCEPTED does depend on the order — AddFactory-then-Set is refused, Set-then-AddFactory is
+    not — that is outside the property; explicit-vs-default is covered, unconditionally, above.) *)
+Theorem C10_order_independent : forall ds ds', Permutation ds ds' ->
+  all_ok ds init = true -> all_ok ds' init = true ->
+  forall n, eff (run ds init) n = eff (run ds' init) n.
+Proof. exact order_independent. Qed.
+Print Assumptions C10_order_independent.
+
+Theorem C10_order_independent_outcome : forall ds ds' reqs reqs' n, Permutation ds ds' ->
+  all_ok ds init = true -> all_ok ds' init = true ->
+  let r := snd (Get (run reqs (block (run ds init))) n) in
+  let r' := snd (Get (run reqs' (block (run ds' init))) n) in
+  is_ok r = is_ok r' /\ forall t t', r = GOk t -> r' = GOk t' -> tok_source t = tok_source t'.
+Proof. exact order_independent_outcome. Qed.
+Print Assumptions C10_order_independent_outcome.
 
 (** ** Frozen: after a program that contains a Get, or an InjectTo with a tagged field, every
     definition call is refused and changes nothing. *)
@@ -206,3 +225,15 @@ Proof. vm_compute. repeat split. Qed.
 (* C10_frozen hypotheses are plain booleans *)
 Example ex_freezes : freezes (OGet 3) = true /\ freezes (OInject [(1, true)]) = true /\ freezes (OInject []) = false.
 Proof. repeat split. Qed.
+
+(* hypotheses of C10_order_independent: default factory, explicit factory, default instance of the
+   same name, registered in two orders, all accepted in both *)
+Example ex_order :
+  let a := OAddDefaultFactory 0 1 fA in let b := OAddFactory 0 2 fB in let c := OSetDefault 0 3 in
+  let d := OSet 1 4 in
+  Permutation [a; b; c; d] [d; c; b; a] /\
+  all_ok [a; b; c; d] init = true /\ all_ok [d; c; b; a] init = true.
+Proof.
+  cbv zeta. split; [|vm_compute; split; reflexivity].
+  exact (Permutation_rev [OAddDefaultFactory 0 1 fA; OAddFactory 0 2 fB; OSetDefault 0 3; OSet 1 4]).
+Qed.
